@@ -1,0 +1,7 @@
+//go:build !verif
+// +build !verif
+
+package netpoll
+
+func verifGate()                {}
+func verifSeen(_ int, _ uint32) {}
